@@ -30,10 +30,10 @@ def handleC04 (args : List String) : String :=
         | _, _ => "bad-op"
       | _, _ => "bad-op"
     | _, _, _ => "bad-op"
-  | ["iterations", w] =>
-    match parseFloat w with
-    | some w => s!"ok {fitIterationsF w}"
-    | none => "bad-op"
+  | ["iterations", w, dx] =>
+    match parseFloat w, parseFloat dx with
+    | some w, some dx => s!"ok {fitIterationsF w dx}"
+    | _, _ => "bad-op"
   | "full" :: d :: m :: adj :: nc :: rest =>
     -- `c04 full dim modes adjust ncon con.. axis_0..axis_{dim-1} dx vmin vmax wflag cand(dim+2+modes) x..`
     --   axis_i = "-" (not periodic) or "lo:len" (float bits); wflag = 1 iff the candidate's width is set
